@@ -14,6 +14,7 @@ package harness
 
 import (
 	"bytes"
+	"crypto/sha256"
 	"encoding/json"
 	"fmt"
 	"regexp"
@@ -227,6 +228,20 @@ func (g *GenesisGen) Run(nOps int, caseIdx int) {
 				}
 			}
 		}
+	}
+	// many entries of each sequence-indexed family (a busy lane that was never cleaned): more than
+	// any page size an exporter might use
+	{
+		pk := c0.App.TIBCKeeper.PacketKeeper
+		ctx := c0.GetContext()
+		for seq := uint64(1); seq <= 130; seq++ {
+			hsh := sha256.Sum256([]byte{byte(seq), byte(caseIdx)})
+			pk.SetPacketReceipt(ctx, "fictbulksrc", c0.ChainName, seq)
+			pk.SetPacketAcknowledgement(ctx, "fictbulksrc", c0.ChainName, seq, hsh[:])
+			pk.SetPacketCommitment(ctx, c0.ChainName, "fictbulkdst", seq, hsh[:])
+		}
+		w.Coord.CommitBlock(c0)
+		g.stats["genesis.bulk-entries"] += 390
 	}
 	// let the clients of chain 0 see recent heights of the other chains (many consensus states)
 	for _, q := range w.Chains[1:] {
